@@ -164,6 +164,7 @@ impl std::fmt::Debug for Tok {
     }
 }
 
+#[derive(Debug)]
 pub struct Zst;
 impl Zst {
     pub fn new() -> Zst {
@@ -207,7 +208,7 @@ impl Ord for Zst {
 }
 
 /// What the interpreter needs from an element type.
-pub trait CellT: Sized + Clone + Default + Ord + 'static {
+pub trait CellT: Sized + Clone + Default + Ord + std::fmt::Debug + 'static {
     const KIND: &'static str;
     /// data comparisons are meaningful (false for `Zst`)
     const HAS_VALUE: bool = true;
